@@ -1,15 +1,15 @@
 # C07 harness: `uftrace script -S c07_log.py` prints every call the script interface is shown
-# as  E:<display depth>:<name>:<timestamp ns>  /  X:<display depth>:<name>:<timestamp ns>
+# as  E:<display depth>:<name>:<timestamp ns>:<tid>  /  X:<display depth>:<name>:<timestamp ns>:<tid>
 def uftrace_begin(ctx):
     pass
 
 
 def uftrace_entry(ctx):
-    print("E:%d:%s:%d" % (ctx["depth"], ctx["name"], ctx["timestamp"]))
+    print("E:%d:%s:%d:%d" % (ctx["depth"], ctx["name"], ctx["timestamp"], ctx["tid"]))
 
 
 def uftrace_exit(ctx):
-    print("X:%d:%s:%d" % (ctx["depth"], ctx["name"], ctx["timestamp"]))
+    print("X:%d:%s:%d:%d" % (ctx["depth"], ctx["name"], ctx["timestamp"], ctx["tid"]))
 
 
 def uftrace_end():
